@@ -284,12 +284,80 @@ theorem mlpgCreate_ok_length (gw thr : K) (s : StreamIn K) (durs : List Nat) (ro
   obtain ⟨t, _, rfl⟩ := hr
   simp
 
-/-- MLPG never panics on a well-formed stream and returns one row of `vector_length` values per frame. -/
-theorem mlpgCreate_shape (gw thr : K) (s : StreamIn K) (durs : List Nat) (hwf : StreamWF s)
-    (hd : durs.length ≤ s.stream.length) :
-    ∃ rows, mlpgCreate gw thr s durs = .ok rows ∧ rows.length = durs.sum ∧
-      ∀ r ∈ rows, r.length = s.vectorLength := by
-  sorry
+/-! ### `mlpgCreate_shape` is false for a malformed GV switch list -/
+
+theorem gvNextStep_length_le (m : MlpgMatrix K) (par : List K) (sw : List Bool) (g : List K)
+    (step mean vari gm gv : K) : (gvNextStep m par sw g step mean vari gm gv).length ≤ sw.length := by
+  unfold gvNextStep
+  simp only [List.length_map, List.length_zip]
+  omega
+
+theorem gvLoop_length_le (m : MlpgMatrix K) (sw : List Bool) (gm gv : K) (gvLen : Nat) (half sd si : K)
+    (fuel : Nat) : ∀ (i : Nat) (par : List K) (step prev : K), par.length ≤ sw.length →
+      (gvParmgen.loop m sw gm gv gvLen half sd si i fuel par step prev).length ≤ sw.length := by
+  induction fuel with
+  | zero => intro i par step prev hp; simpa [gvParmgen.loop] using hp
+  | succ fuel ih =>
+    intro i par step prev hp
+    rw [gvParmgen.loop]
+    simp only
+    apply ih
+    exact gvNextStep_length_le _ _ _ _ _ _ _ _ _
+
+theorem gvParmgen_length_le (m : MlpgMatrix K) (par : List K) (sw : List Bool) (gm gv : K)
+    (h : (sw.filter id).length ≠ 0) : (gvParmgen m par sw gm gv).length ≤ sw.length := by
+  unfold gvParmgen
+  simp only [h, if_false]
+  apply gvLoop_length_le
+  rw [convGv_length]
+  omega
+
+theorem maskFill_short {β : Type} (xs : List β) (d : β) (h : xs.length ≤ 1) :
+    maskFill [true, true] xs d = none := by
+  match xs, h with
+  | [], _ => rfl
+  | [x], _ => rfl
+  | _ :: _ :: _, h => simp at h
+
+/-- a well-formed two-state stream whose GV switch list (one entry) is shorter than its state list -/
+def cexStream : StreamIn K :=
+  ⟨1, [⟨[⟨0, 1⟩], 1⟩, ⟨[⟨0, 1⟩], 1⟩], some ([⟨0, 1⟩], [true]), [[1]]⟩
+
+theorem cexStream_wf : StreamWF (cexStream : StreamIn K) := by
+  refine ⟨by simp [cexStream], ?_⟩
+  intro st hst
+  simp only [cexStream, List.mem_cons, List.not_mem_nil, or_false, or_self] at hst
+  subst hst
+  simp [cexStream]
+
+theorem cexStream_not_ok (gw : K) (rows : List (List K)) :
+    mlpgCreate gw 0 (cexStream : StreamIn K) [1, 1] ≠ .ok rows := by
+  intro h
+  have hnone := (mlpgCreate_ok _ _ _ _ _ h).1
+  rw [List.any_eq_false] at hnone
+  have h0 := hnone (mlpgCol gw 0 cexStream [1, 1] 0) (List.mem_map.2 ⟨0, by simp [cexStream], rfl⟩)
+  apply h0
+  have hmask : maskCreate (cexStream : StreamIn K).stream 0 [1, 1] = [true, true] := by
+    simp [cexStream, maskCreate, expand]
+  unfold mlpgCol
+  simp only [hmask]
+  split
+  · rfl
+  · rename_i mtx _
+    rw [maskFill_short]
+    · rfl
+    · unfold MlpgMatrix.par
+      simp only [cexStream]
+      have hsw : filterBy (expand [true] [1, 1]) [true, true] = [true] := by decide
+      rw [hsw]
+      exact gvParmgen_length_le _ _ _ _ _ (by decide)
+
+/-- `mlpgCreate_shape` is false as stated: a GV switch list shorter than the duration list makes the
+    GV stage truncate the trajectory (`zip`), and `Mask::fill` then runs out of values. -/
+theorem mlpgCreate_shape_counterexample :
+    ∃ (s : StreamIn K) (durs : List Nat), StreamWF s ∧ durs.length ≤ s.stream.length ∧
+      ∀ gw rows, mlpgCreate gw 0 s durs ≠ .ok rows :=
+  ⟨cexStream, [1, 1], cexStream_wf, by simp [cexStream], cexStream_not_ok⟩
 
 /-- unvoiced frames carry the no-data marker in every dimension -/
 theorem mlpgCreate_nodata (gw thr : K) (s : StreamIn K) (durs : List Nat) (rows : List (List K))
@@ -376,23 +444,165 @@ theorem applyHalfTone_mask (stream : List (StateParam K)) (h thr : K) (durs : Li
 
 /-! ### the whole pipeline -/
 
+theorem engineParams_ok (c : Condition K) (b : Bool) (inp : EngineIn K) (p : GenParams K)
+    (h : engineParams c b inp = .ok p) :
+    engineDurations c b inp = .ok p.durations ∧ engineStream c inp p.durations 0 = .ok p.spectrum ∧
+      engineStream c inp p.durations 1 = .ok p.lf0 := by
+  unfold engineParams at h
+  split at h
+  · rename_i durs hd
+    split at h
+    · rename_i sp lf0 h0 h1
+      split_ifs at h
+      · split at h <;> simp at h
+        subst h
+        exact ⟨hd, h0, h1⟩
+      · simp at h
+        subst h
+        exact ⟨hd, h0, h1⟩
+    all_goals simp at h
+  · simp at h
+  · simp at h
+
+theorem engineStream_zero_ok (c : Condition K) (inp : EngineIn K) (durs : List Nat) (sp : List (List K))
+    (s0 : StreamIn K) (hs0 : inp.streams[0]? = some s0) (h : engineStream c inp durs 0 = .ok sp) :
+    ∃ gw thr, c.gvWeight[0]? = some gw ∧ c.msdThreshold[0]? = some thr ∧
+      mlpgCreate gw thr s0 durs = .ok sp := by
+  unfold engineStream at h
+  split at h
+  · rename_i s gw thr hs hg ht
+    rw [hs0] at hs
+    cases hs
+    exact ⟨gw, thr, hg, ht, by simpa using h⟩
+  · simp at h
+
 /-- **Frame-exact length.** If synthesis returns, it returns `fperiod × F` samples, `F` the sum of the
     state durations (spectrum stream well-formed). -/
 theorem engineSynthesize_length (fx : Fix) (c : Condition K) (b : Bool) (inp : EngineIn K) (w : List K)
     (s0 : StreamIn K) (hs0 : inp.streams[0]? = some s0) (hwf : StreamWF s0)
     (h : engineSynthesize fx c b inp = .ok w) :
     ∃ durs, engineDurations c b inp = .ok durs ∧ (durs.length ≤ s0.stream.length → w.length = c.fperiod * durs.sum) := by
-  sorry
+  have _ := hwf
+  unfold engineSynthesize at h
+  split at h
+  · rename_i p hp
+    obtain ⟨hd, h0, -⟩ := engineParams_ok c b inp p hp
+    refine ⟨p.durations, hd, fun hlen => ?_⟩
+    cases hchk : speechGeneratorNewOk p with
+    | false => simp [hchk] at h
+    | true =>
+      simp only [hchk, Bool.not_true, Bool.false_eq_true, if_false] at h
+      rw [Gen.finish_fixed (vocoderFrame fx c.fperiod) _ (fun v f => vocoderFrame_length fx c.fperiod v f)
+        (Nat.zero_le _)] at h
+      simp only [Outcome.ok.injEq, List.drop_zero] at h
+      subst h
+      rw [Gen.render_length _ c.fperiod (fun v f => vocoderFrame_length fx c.fperiod v f)]
+      obtain ⟨gw, thr, -, -, hm⟩ := engineStream_zero_ok c inp p.durations p.spectrum s0 hs0 h0
+      have hl := (mlpgCreate_ok_length gw thr s0 p.durations p.spectrum hm).1
+      rw [maskCreate_length _ _ _ hlen] at hl
+      simp only [speechGeneratorNewOk, Bool.and_eq_true, beq_iff_eq] at hchk
+      obtain ⟨⟨⟨e1, e2⟩, -⟩, -⟩ := hchk
+      simp only [List.length_zip, ← e1, ← e2, Nat.min_self, hl]
+      exact Nat.mul_comm _ _
+  · simp at h
+  · simp at h
 
-/-- **Totality.** With the duration model consistent with the label count, every stream well-formed,
-    log-F0 vector length 1 and an odd (or absent) low-pass order, synthesis returns a waveform. -/
-theorem engineSynthesize_total (fx : Fix) (c : Condition K) (inp : EngineIn K)
+theorem applyHalfTone_length (stream : List (StateParam K)) (h : K) :
+    (applyHalfTone stream h).length = stream.length := by
+  unfold applyHalfTone
+  split <;> simp
+
+theorem applyHalfTone_params (stream : List (StateParam K)) (h : K) (st : StateParam K)
+    (hst : st ∈ applyHalfTone stream h) : ∃ st' ∈ stream, st.params.length = st'.params.length := by
+  unfold applyHalfTone at hst
+  split at hst
+  · exact ⟨st, hst, rfl⟩
+  · simp only [List.mem_map] at hst
+    obtain ⟨st', hm, rfl⟩ := hst
+    refine ⟨st', hm, ?_⟩
+    rcases st' with ⟨_ | ⟨p, rest⟩, msd⟩ <;> rfl
+
+/-- **Totality**, with the GV switch lists of both streams covering every state. -/
+theorem engineSynthesize_total_partial (fx : Fix) (c : Condition K) (inp : EngineIn K)
     (s0 s1 : StreamIn K) (hs0 : inp.streams[0]? = some s0) (hs1 : inp.streams[1]? = some s1)
     (hw0 : StreamWF s0) (hw1 : StreamWF s1) (hv1 : s1.vectorLength = 1)
     (hl0 : s0.stream.length = inp.duration.length) (hl1 : s1.stream.length = inp.duration.length)
     (hgw : 2 ≤ c.gvWeight.length) (hth : 2 ≤ c.msdThreshold.length) (h2 : inp.nstream = 2)
-    (halign : c.alignment = false) (b : Bool) :
+    (halign : c.alignment = false)
+    (hg0 : ∀ g sw, s0.gv = some (g, sw) → inp.duration.length ≤ sw.length)
+    (hg1 : ∀ g sw, s1.gv = some (g, sw) → inp.duration.length ≤ sw.length) (b : Bool) :
     ∃ w, engineSynthesize fx c b inp = .ok w := by
-  sorry
+  obtain ⟨durs, hdur⟩ := durationCreate_ok inp.duration c.speed b
+  have hdl := (durationCreate_shape _ _ _ _ hdur).1
+  have hD : engineDurations c b inp = .ok durs := by
+    unfold engineDurations
+    simp [halign, hdur]
+  have hgw0 : c.gvWeight[0]? = some c.gvWeight[0] := List.getElem?_eq_getElem (by omega)
+  have hgw1 : c.gvWeight[1]? = some c.gvWeight[1] := List.getElem?_eq_getElem (by omega)
+  have hth0 : c.msdThreshold[0]? = some c.msdThreshold[0] := List.getElem?_eq_getElem (by omega)
+  have hth1 : c.msdThreshold[1]? = some c.msdThreshold[1] := List.getElem?_eq_getElem (by omega)
+  obtain ⟨sp, hsp, hspl, -⟩ := mlpgCreate_shape_partial c.gvWeight[0] c.msdThreshold[0] s0 durs hw0
+    (by omega) (fun g sw h => by rw [hdl]; exact hg0 g sw h)
+  have hS0 : engineStream c inp durs 0 = .ok sp := by
+    unfold engineStream
+    rw [hs0, hgw0, hth0]
+    simpa using hsp
+  have hw1' : StreamWF { s1 with stream := applyHalfTone s1.stream c.halfTone } :=
+    ⟨hw1.1, fun st hst => by
+      obtain ⟨st', hm, e⟩ := applyHalfTone_params _ _ st hst
+      rw [e]; exact hw1.2 st' hm⟩
+  obtain ⟨lf0, hlf, hlfl, hlfr⟩ := mlpgCreate_shape_partial c.gvWeight[1] c.msdThreshold[1]
+    { s1 with stream := applyHalfTone s1.stream c.halfTone } durs hw1'
+    (by simp only [applyHalfTone_length]; omega) (fun g sw h => by rw [hdl]; exact hg1 g sw h)
+  have hS1 : engineStream c inp durs 1 = .ok lf0 := by
+    unfold engineStream
+    rw [hs1, hgw1, hth1]
+    simpa using hlf
+  have hP : engineParams c b inp = .ok ⟨durs, sp, lf0, lf0.map fun _ => []⟩ := by
+    unfold engineParams
+    rw [hD]
+    simp only
+    rw [hS0, hS1]
+    simp [h2]
+  have hchk : speechGeneratorNewOk (⟨durs, sp, lf0, lf0.map fun _ => []⟩ : GenParams K) = true := by
+    unfold speechGeneratorNewOk
+    simp only [hspl, hlfl, List.length_map, beq_self_eq_true, Bool.true_and]
+    cases lf0 with
+    | nil => simp
+    | cons f r =>
+      have := hlfr f (by simp)
+      simp only at this
+      simp [this, hv1]
+  unfold engineSynthesize
+  rw [hP]
+  simp only [hchk, Bool.not_true, Bool.false_eq_true, if_false]
+  exact ⟨_, Gen.finish_fixed (vocoderFrame fx c.fperiod) _
+    (fun v f => vocoderFrame_length fx c.fperiod v f) (Nat.zero_le _)⟩
+
+theorem engineSynthesize_total_counterexample (fx : Fix) :
+    ∃ (c : Condition K) (inp : EngineIn K) (s0 s1 : StreamIn K),
+      inp.streams[0]? = some s0 ∧ inp.streams[1]? = some s1 ∧ StreamWF s0 ∧ StreamWF s1 ∧
+      s1.vectorLength = 1 ∧ s0.stream.length = inp.duration.length ∧
+      s1.stream.length = inp.duration.length ∧ 2 ≤ c.gvWeight.length ∧ 2 ≤ c.msdThreshold.length ∧
+      inp.nstream = 2 ∧ c.alignment = false ∧ ∀ w, engineSynthesize fx c true inp ≠ .ok w := by
+  refine ⟨{ Condition.default with msdThreshold := [0, 0], gvWeight := [1, 1] },
+    ⟨1, 2, [⟨0, 0⟩, ⟨0, 0⟩], [cexStream, cexStream], []⟩, cexStream, cexStream, rfl, rfl,
+    cexStream_wf, cexStream_wf, rfl, rfl, rfl, by simp, by simp, rfl, rfl, ?_⟩
+  intro w h
+  unfold engineSynthesize at h
+  split at h
+  · rename_i p hp
+    obtain ⟨hd, h0, -⟩ := engineParams_ok _ _ _ p hp
+    have hdur : p.durations = [1, 1] := by
+      have hfl : ⌊(2⁻¹ : K)⌋₊ = 0 := Nat.floor_eq_zero.2 (by norm_num)
+      simp [engineDurations, Condition.default, durationCreate, estimateDuration, roundMax1_def, hfl] at hd
+      exact hd.symm
+    obtain ⟨gw, thr, -, ht, hm⟩ := engineStream_zero_ok _ _ _ _ cexStream rfl h0
+    simp only [List.getElem?_cons_zero, Option.some.injEq] at ht
+    subst ht
+    rw [hdur] at hm
+    exact cexStream_not_ok _ _ hm
+  · simp at h
+  · simp at h
 
 end Jb
